@@ -119,10 +119,10 @@ def const_shift(vec):
     return lambda angle: arr
 
 
-def build(g, theta0, variant):
+def build(g, theta0, variant, apart=None, dpart=None):
     """Real ODL geometry for descriptor g.  theta0: base angle fixing the helical pitch.
     variant: dict(scale=bool, check_bounds=bool, always_translation=bool, as_array=bool: vectors are handed
-    over as ndarrays instead of lists)."""
+    over as ndarrays instead of lists).  apart / dpart: other angle / detector partitions than the standard ones."""
     import odl.tomo as T
     if variant.get('as_array', False):
         wrap = lambda v: [wrap(x) for x in v] if (v and isinstance(v[0], list)) else np.array(v, dtype=float)
@@ -133,8 +133,8 @@ def build(g, theta0, variant):
     kw = {}
     if not variant.get('check_bounds', True):
         kw['check_bounds'] = False
-    apart = angle_partition(cls)
-    dpart = det_partition(g)
+    apart = angle_partition(cls) if apart is None else apart
+    dpart = det_partition(g) if dpart is None else dpart
     det = g['det']['kind']
     r = float(fq(g['det']['r']))
     if g['mat']:
@@ -435,3 +435,30 @@ def apply_history(g, hist, a, u):
                 except ValueError:          # a read-only array refuses the write: nothing happened
                     pass
     return geom, angles0
+
+
+# ------------------------------------------------------------------ back-end vectors (odl/tomo/backends/astra_setup.py)
+def backend_vectors(g, a, variant):
+    """The pure-NumPy conversions of a geometry into per-angle ASTRA vectors (src | ray, detector centre, pixel vectors)
+    on a geometry whose angle partition has the exactly known angle of `a` as a grid point and whose detector partition is
+    OFF-CENTRE with unequal cell sides.  Returns (fn name, row for that angle, mid parameter descriptor u, cell sides)."""
+    from odl.tomo.backends import astra_setup as AS
+    cls = g['cls']
+    th = theta_of(a)
+    nd = 2 if cls in ('par2d', 'fan') else 3
+    apart = odl.nonuniform_partition([th - 0.75, th, th + 1.25], min_pt=th - 1.0, max_pt=th + 2.0)
+    if nd == 2:
+        dpart = odl.uniform_partition(-1.0, 5.0, 12)                     # mid 2, cell side 1/2
+        mid, px = [2], [[1, 2]]
+    else:
+        dpart = odl.uniform_partition([-1.0, -2.0], [5.0, 1.0], (6, 12))     # mid (2, -1/2), cell sides (1, 1/4)
+        mid, px = [2, [-1, 2]], [[1, 1], [1, 4]]
+    u = [{'c': [1, 1], 'q': (m if isinstance(m, list) else [m, 1]), 's': [0, 1]} for m in mid]
+    geom = build(g, base_theta(g, a), variant, apart=apart, dpart=dpart)
+    fn = {'cone': 'astra_conebeam_3d_geom_to_vec', 'fan': 'astra_conebeam_2d_geom_to_vec',
+          'par3dax': 'astra_parallel_3d_geom_to_vec'}[cls]
+    vecs = np.asarray(getattr(AS, fn)(geom))
+    want = (3, 12) if nd == 3 else (3, 6)
+    if vecs.shape != want:
+        raise ValueError('vector array of shape %r, documented %r' % (vecs.shape, want))
+    return fn, project(vecs[1])[0], u, px
